@@ -1668,7 +1668,8 @@ MANIFEST = {
             "code on either side, and all pairs of ordered serializer lists (<= 2 ids quick, <= 4 "
             "thorough): attachment <=> common serializer, the client's first supported choice in use "
             "on both ends, wire well-formed per the reference framing, messages intact in order both "
-            "ways, over-limit sends refused with nothing written, onClose exactly once per side.",
+            "ways, over-limit sends refused with nothing written, onClose exactly once per side."
+            " Session code failing with a 400-octet multi-byte text; the close frame written while failing is itself judged (control frame <= 125 octets, reason valid UTF-8).",
     "note": "Trusted: ref/rawsocket.py, ref/ws_frames.py (written from the specifications), env "
             "transports, autobahn serializers for payload encoding. asyncio RawSocket cannot configure "
             "its receive limit (always 2^24). Cross-framework pairs run in two processes joined by an "
